@@ -300,7 +300,8 @@ class MinFlowDecomp(pathmodel.AbstractPathModelDAG): # Note that we inherit from
 
         if self.optimization_options.get("use_subgraph_scanning_weights_in_given_weights_optimization", MinFlowDecomp.use_subgraph_scanning_weights_in_given_weights_optimization):
             if self._all_subgraph_weights is not None:
-                all_weights.update(self._all_subgraph_weights)
+                # (as for the generating set: a float weight such as 2.78e-17, left over by a greedy window decomposition, is no usable weight)
+                all_weights.update(weight for weight in self._all_subgraph_weights if weight > 1e-9)
                 all_weights_list = list(all_weights)
         
         # print("all_weights_list", sorted(all_weights_list))
